@@ -63,6 +63,15 @@ CLAIMED = {
                 note='Template shape, history length and value lengths are finite choices; the SMT content is value collisions, word splitting, character substitution. '
                      'string.Template.substitute and os.path.splitext are modelled by their documented rules and validated against the real functions at start-up.',
                 ref='DESIGN.md section 5 C15'),
+    'C16': dict(level='model_checking',
+                text='Bounded exhaustive over layerings: for one representative option per type and section (all 16 boolean options) every combination of {file 1, file 2, '
+                     'command line} present/absent (z3 booleans) with the written values symbolic (digits of integers and floats, letters of strings and list entries; 12 boolean '
+                     'spellings and paired --x/--no-x flags as finite choices): the value read back is the one from the highest layer present (lists extend, dictionaries merge '
+                     'per key), of the declared type; %(name)s refers to the current value of the named option and %% is a literal percent sign in strings and list entries.',
+                note='configparser.ConfigParser is an environment stub in symbolic runs (same merge semantics; the real class on real files in every concrete replay and '
+                     'cross-validation run); argparse runs for real on concrete argument vectors; shlex.split modelled for text without quotes. Mostly finite: the SMT content is '
+                     'the written values and the presence flags.',
+                ref='DESIGN.md section 5 C16'),
     'C19': dict(level='model_checking',
                 text='Bounded exhaustive over all expression trees of depth <= 2 (thorough: depth 3 with <= 5 atoms, depth-4 chains) written as LaTeX source: for every '
                      'valuation of the atoms (booleans, symbolic digits and relation characters, symbolic \\equal letters) exactly the branch denoted by the expression '
